@@ -233,6 +233,33 @@ def case_pair(case):
             eq_hash(layer, u, ureg.dimensionless, True, "empty vs dimensionless")
         eq_hash(layer, u ** 0, ureg.dimensionless, True, f"u**0 vs dimensionless {mu}")
         eq_hash(layer, u / u, ureg.dimensionless, True, f"u/u vs dimensionless {mu}")
+    if layer in ("UnitsContainer", "ParserHelper"):
+        # the container's own editing helpers (used by parsing, alias folding, to_reduced_units ...): each returns a new container that equals
+        # and hashes like one built from scratch - the operand has been hashed above, a memoised hash must not travel into the copy
+        nm = lambda k: k  # noqa: E731
+        for k, e in mu.items():
+            for tag, got, want in (("add_cancel", u.add(nm(k), conv_exp(-e, ty)), {x: y for x, y in mu.items() if x != k}), ("add_one", u.add(nm(k), conv_exp(Fraction(1), ty)), m_mul(mu, {k: Fraction(1)})),
+                                   ("remove", u.remove([nm(k)]), {x: y for x, y in mu.items() if x != k}), ("rename", u.rename(nm(k), "zz"), dict({x: y for x, y in mu.items() if x != k}, zz=e))):
+                expect(layer, ty, got, want, f"{tag}({mu},{k})", {x: x for x in want})
+                eq_hash(layer, got, build(layer, ty, want), True, f"{tag}({mu},{k}) vs fresh")
+        if layer == "ParserHelper":
+            for k in sorted(set(mu) | {"zz"}):
+                for tag, got, want in (("ph*str", u * k, m_mul(mu, {k: Fraction(1)})), ("ph/str", u / k, m_div(mu, {k: Fraction(1)}))):
+                    expect(layer, ty, got, want, f"{tag}({mu},{k})", {x: x for x in want})
+                    eq_hash(layer, got, build(layer, ty, want), True, f"{tag}({mu},{k}) vs fresh")
+    if ty == "float" and mu:
+        # exponents whose product is zero in floating point although neither factor is: an entry with exponent 0.0 is no entry
+        import numpy as np
+
+        for t1, t2 in ((1e-170, 1e-170), (5e-324, 0.5), (np.float32(1e-25), np.float32(1e-25)), (1e-200, -1e-200)):
+            s_, r_ = attempt(lambda: (u ** t1) ** t2)
+            if s_ == "err":
+                continue
+            got, n, zero = observe(layer, r_)
+            if zero or (all(float(e) * float(t1) * float(t2) == 0 for e in mu.values()) and n != 0):
+                raise Violation(f"zero_exponent_survives:pow_underflow:{layer}", f"({mu} ** {t1!r}) ** {t2!r}: entries {got}")
+            if n == 0:
+                eq_hash(layer, r_, build(layer, ty, {}, names), True, f"({mu} ** {t1!r}) ** {t2!r} vs dimensionless")
     if snapshot(layer, u) != su or snapshot(layer, v) != sv:
         raise Violation(f"operand_mutated:{layer}", f"{lab}")
 
